@@ -52,20 +52,20 @@ inductive Ev where
   | uses (n : String)                        -- `add_uses_entity` on the current scope
   | cls (d : Decl) (parent : Option String)  -- `handle_class`
   | mod (d : Decl)                           -- `handle_module`
-deriving Repr, Inhabited
+deriving DecidableEq, Repr, Inhabited
 
 structure Method where
   decl   : Decl
   params : List Decl := []
   body   : List Ev := []      -- declarations / `uses` inside the body, visit order
   trail  : List Ev := []      -- top-level declarations that follow the method
-deriving Repr, Inhabited
+deriving DecidableEq, Repr, Inhabited
 
 structure Entity where
   stem    : String
   top     : List Ev := []     -- top-level events before the first method (header, uses, members)
   methods : List Method := []
-deriving Repr, Inhabited
+deriving DecidableEq, Repr, Inhabited
 
 abbrev Ws := List Entity
 
@@ -417,9 +417,8 @@ def linkSingle (v : View) (id : String) : List Link :=
 /-- `generate_loc_link_all`: one link per table of the chain that has the name; a failing
     `get_uri_for_class` fails the whole request (answered with the empty list) -/
 def linkAll (v : View) (id : String) : List Link :=
-  match (searchAll norm v.chain id).mapM (linkOf norm w) with
-  | some l => l
-  | none => []
+  let ls := (searchAll norm v.chain id).map (linkOf norm w)
+  if ls.all Option.isSome then ls.filterMap (fun x => x) else []
 
 /-- the case analysis of `handle_generic`, with what `get_id` extracted from the node -/
 inductive DCtx where
